@@ -86,4 +86,4 @@ func vfC15Run(I, T *rib.VfWorld, extra bool) {
 func VfC15_reconcile_qx() { vfC15Run(rib.VfBuildSplit("I."), rib.VfBuildSplit("T."), false) }
 
 func VfC15_reconcile_q() { vfC15(1, 1, 1, 1, rib.VfKinds(true, false, true)) }
-func VfC15_reconcile_t() { vfC15(2, 1, 1, 2, rib.VfKinds(true, true, true)) }
+func VfC15_reconcile_t() { vfC15(2, 1, 1, 1, rib.VfKinds(true, false, false)) }
